@@ -251,6 +251,30 @@ def mutants(name, ini):
             d.sections.append(['Potential-Form', []])
         d.section('Potential-Form')[1].append([nk, nv])
         out.append((op, d))
+    # a custom form that is called correctly first and with the wrong number of arguments later (by a later pair); a formula that calls itself
+    if pf:
+        k0 = pf[1][0][0]
+        label = k0.split('(')[0]
+        nargs = len(k0.split('(', 1)[1].rstrip(')').split(','))
+        pair_sec = ini.section('Pair')
+        uses_label = pair_sec is not None and any(v.split()[0] == label for _k, v in pair_sec[1] if v.split())
+        if pair_sec is not None and uses_label and nargs >= 3:
+            for wrong, op in ((', '.join(['r'] + ['1.0'] * (nargs - 2)), 'formula-call-arity-after-correct-call'), (', '.join(['r'] + ['1.0'] * nargs), 'formula-call-arity-after-correct-call')):
+                d = ini.copy()
+                d.section('Potential-Form')[1].append(['zzlate(r)', '%s(%s)' % (label, wrong)])
+                d.section('Pair')[1].append(['Zz-Zz', 'zzlate'])
+                out.append((op, d))
+        for body, op in (('selfc(r, A) + 1.0', 'formula-calls-itself'), ('if (r > 100.0) { selfc(r, A); } else { A*r; }', 'formula-calls-itself-in-unreached-branch')):
+            d = ini.copy()
+            d.section('Potential-Form')[1].append(['selfc(r, A)', body])
+            if pair_sec is not None:
+                d.section('Pair')[1].append(['Zz-Zz', 'selfc 2.0'])
+            out.append((op, d))
+        d = ini.copy()
+        d.section('Potential-Form')[1].extend([['mut1(r)', 'mut2(r) + 1.0'], ['mut2(r)', 'mut1(r) * 0.5']])
+        if pair_sec is not None:
+            d.section('Pair')[1].append(['Zz-Zz', 'mut1'])
+        out.append(('formulas-call-each-other', d))
     # ---------------------------------------------------------------- [Species]
     sp = ini.section('Species')
     used = set(k for k, _v in (ini.section('EAM-Embed') or [None, []])[1])
